@@ -625,8 +625,10 @@ fn chunks(text: &str) -> Vec<String> {
 pub fn minimise(h: &History, property: &str, signature: &str, budget: usize) -> (History, usize) {
     let mut best = h.clone();
     let mut used = 0usize;
+    let started = std::time::Instant::now();
+    let wall_cap = std::time::Duration::from_secs(60);
     let mut test = |cand: &History, used: &mut usize| -> bool {
-        if *used >= budget {
+        if *used >= budget || started.elapsed() > wall_cap {
             return false;
         }
         *used += 1;
@@ -650,7 +652,7 @@ pub fn minimise(h: &History, property: &str, signature: &str, budget: usize) -> 
     }
     // 1. drop ops: chunks of n/2, n/4, ... 1 (ddmin), within a wall-clock cap
     let t0 = std::time::Instant::now();
-    let cap = std::time::Duration::from_secs(90);
+    let cap = std::time::Duration::from_secs(40);
     let mut chunk = (best.ops.len() / 2).max(1);
     loop {
         let mut i = 0;
